@@ -271,7 +271,7 @@ func resolverReplay(e *env) error {
 			extra := &shared.DBNode{Header: "zz extra recipe", Elements: shared.NewElements()}
 			extra.Elements.Add("zz extra leaf", 2)
 			extra.Elements.Add(names[c.Book[len(c.Book)-1].Name], 3)
-			if first != names[c.Book[len(c.Book)-1].Name] || len(c.Book) == 1 {
+			if _, present := db[first]; present && (first != names[c.Book[len(c.Book)-1].Name] || len(c.Book) == 1) {
 				db.Push(extra)
 				el := db[first].Elements
 				el.Add("zz extra recipe", 5)
@@ -296,7 +296,7 @@ func resolverReplay(e *env) error {
 					}
 				}
 				if !same {
-					e.mismatch("resolver-reused-after-change", "resolver/resolver.go", fmt.Sprintf("a Resolver used again after %q gained the ingredient \"zz extra recipe\" returns %v / %v; a fresh resolver on the same book returns %v / %v", first, err1, db[first].Elements, err2, fresh[first].Elements),
+					e.mismatch("resolver-reused-after-change", "resolver/resolver.go", fmt.Sprintf("a Resolver used again after %q gained the ingredient \"zz extra recipe\" returns %v; a fresh resolver on the same book returns %v and a different book", first, err1, err2),
 						map[string]interface{}{"case": c, "names": names})
 				}
 				err = nil
